@@ -279,6 +279,141 @@ def adaptive_item(item, res, on_v):
                     res["outcomes"].append("%s|%d|%s|%s|%s|%s" % (variant, n, dom, l2, ratio, k2.tolist()))
 
 
+# ----------------------------------------------------------------- adaptive sampler driven by a condition ---
+COND_KINDS = ["pinn", "pinn2out", "deepritz", "periodic", "integro", "hpm_sampler"]
+
+
+def adaptive_in_condition(item, res, on_v):
+    """The condition is the only caller that knows the per-point loss.  Oracle: a twin sampler object, driven by hand with the
+    per-point losses recomputed independently from the points the residual function saw, must produce the very same point sets
+    (both runs answer the random source identically, so any difference is a difference in the losses handed over)."""
+    kind, variant, n = item["cond"], item["variant"], item["n"]
+    X, T, U = Space({"x": 2}), Space({"t": 1}), Space({"u": 1 if kind != "pinn2out" else 2})
+    S, Cn = tp.samplers, tp.conditions
+    calls = 4
+
+    def mk_sampler():
+        dom = Bd.build_tp(L.SQ) if kind != "periodic" else Bd.build_tp(L.SQ)
+        if variant == "threshold":
+            return S.AdaptiveThresholdRejectionSampler(dom, resample_ratio=0.5, n_points=n)
+        return S.AdaptiveRandomRejectionSampler(dom, n_points=n)
+
+    def mk_model():
+        torch.manual_seed(3)
+        if kind == "periodic":
+            return tp.models.FCN(X * T, U, hidden=(5,))
+        return tp.models.FCN(X, U, hidden=(5,))
+    seen = []
+
+    def per_point(r):
+        """documented per-point loss: squared residual summed over components (plain value for mean-type conditions)"""
+        r = r.detach()
+        return r.reshape(len(r), -1).pow(2).sum(1) if kind != "deepritz" else r.reshape(len(r), -1)[:, 0]
+
+    def build(model, sampler):
+        if kind in ("pinn", "pinn2out"):
+            def res_fn(u, x):
+                seen.append(x.detach().clone())
+                return u - x[:, :1] * x[:, 1:] * 3.0
+            return Cn.PINNCondition(model, sampler, res_fn), (lambda x: model(Points(x, X)).as_tensor - x[:, :1] * x[:, 1:] * 3.0)
+        if kind == "deepritz":
+            def res_fn(u, x):
+                seen.append(x.detach().clone())
+                return u ** 2 + x[:, :1]
+            return Cn.DeepRitzCondition(model, sampler, res_fn), (lambda x: model(Points(x, X)).as_tensor ** 2 + x[:, :1])
+        if kind == "hpm_sampler":
+            def res_fn(x):
+                seen.append(x.detach().clone())
+                return x[:, :1] - 2.0 * x[:, 1:]
+            return Cn.HPM_EquationLoss_at_Sampler(model, sampler, res_fn), (lambda x: x[:, :1] - 2.0 * x[:, 1:])
+        if kind == "integro":
+            def res_fn(u, u_integral, x):
+                seen.append(x.detach().clone().reshape(-1, 2))
+                return u - u_integral.mean(dim=1, keepdim=True) * x[..., :1]        # (n, 1, 1)
+            isamp = S.GridSampler(Bd.build_tp(L.C1), 4)
+
+            def ref(x):
+                xi = isamp.sample_points().as_tensor
+                u = model(Points(x, X)).as_tensor
+                ui = model(Points(xi, X)).as_tensor            # the same integral points for every row
+                return u - ui.mean(dim=0, keepdim=True) * x[:, :1]
+            return Cn.IntegroPINNCondition(model, sampler, res_fn, isamp), ref
+        if kind == "periodic":
+            def res_fn(u_left, u_right, x):
+                seen.append(x.detach().clone())
+                return u_left - u_right + x[:, :1]
+            per = tp.domains.Interval(T, 0.0, 1.0)
+
+            def ref(x):
+                l = model(Points(torch.cat([x, torch.zeros(len(x), 1)], 1), X * T)).as_tensor
+                r = model(Points(torch.cat([x, torch.ones(len(x), 1)], 1), X * T)).as_tensor
+                return l - r + x[:, :1]
+            return Cn.PeriodicCondition(model, per, res_fn, non_periodic_sampler=sampler), ref
+        raise ValueError(kind)
+
+    name = "%s|%s|n=%d" % (kind, variant, n)
+    res["states"].append("cond|" + name)
+    model = mk_model()
+    try:
+        cond, ref = build(model, mk_sampler())
+    except Exception as e:
+        on_v("C15|adaptive-in-condition|error|%s|%s" % (type(e).__name__, kind), "%s: constructing the condition raised %s: %s" % (name, type(e).__name__, str(e)[:120]))
+        return
+    losses_seen = []
+    orig_sp = cond.sampler.sample_points if hasattr(cond, "sampler") else cond.non_periodic_sampler.sample_points
+    smp_obj = cond.sampler if hasattr(cond, "sampler") else cond.non_periodic_sampler
+
+    def spy(unreduced_loss=None, *a, **k):
+        losses_seen.append(None if unreduced_loss is None else unreduced_loss.detach().clone())
+        return orig_sp(unreduced_loss, *a, **k) if a else orig_sp(unreduced_loss=unreduced_loss, **k)
+    smp_obj.sample_points = spy
+    res["evals"] += 1
+    try:
+        with Seam():
+            for _ in range(calls):
+                cond(device="cpu")
+                res["transitions"] += 1
+    except Exception as e:
+        on_v("C15|adaptive-in-condition|error|%s|%s" % (type(e).__name__, kind), "%s: evaluating the condition %d times raised %s: %s" % (
+            name, calls, type(e).__name__, str(e)[:160]))
+        return
+    if len(seen) != calls or any(len(s) != n for s in seen):
+        on_v("C15|adaptive-in-condition|count|%s" % kind, "%s: the residual saw point sets of sizes %s in %d evaluations" % (name, [len(s) for s in seen], calls))
+        return
+    # hand-over: call k+1 must receive the per-point loss of call k (None for the first call)
+    if losses_seen[0] is not None:
+        on_v("C15|adaptive-in-condition|first-loss|%s" % kind, "%s: the first sampling call received a loss vector" % name)
+    if ref is not None:
+        with torch.no_grad():
+            want = [per_point(ref(s)) for s in seen]
+    else:
+        want = None
+    twin = mk_sampler()
+    with Seam():
+        ys = []
+        for k in range(calls):
+            ul = None if k == 0 else (want[k - 1] if want is not None else losses_seen[k])
+            ys.append(twin.sample_points(unreduced_loss=ul).as_tensor.clone())
+    for k in range(calls):
+        got = losses_seen[k]
+        if k > 0 and want is not None:
+            if got is None or got.reshape(-1).shape != want[k - 1].shape or not torch.allclose(got.reshape(-1), want[k - 1], rtol=1e-5, atol=1e-7):
+                on_v("C15|adaptive-in-condition|loss-handed-over|%s" % kind,
+                     "%s: sampling call %d received %s, the per-point loss of evaluation %d is %s" % (
+                         name, k + 1, None if got is None else got.reshape(-1).tolist(), k, want[k - 1].tolist()))
+                return
+        if k > 0 and want is None and got is None:
+            on_v("C15|adaptive-in-condition|loss-handed-over|%s" % kind, "%s: sampling call %d received no loss vector" % (name, k + 1))
+            return
+        if not torch.equal(seen[k], ys[k][:, :2]):
+            on_v("C15|adaptive-in-condition|points|%s" % kind,
+                 "%s: evaluation %d used the points %s, a sampler driven with the documented per-point losses gives %s" % (
+                     name, k + 1, seen[k].tolist(), ys[k].tolist()))
+            return
+    kept = sum(int((seen[k] == seen[k - 1]).all(1).sum()) for k in range(1, calls))
+    res["outcomes"].append("cond|%s|kept=%d" % (name, kept))
+
+
 # ----------------------------------------------------------------- driver -----------------
 def items(tier):
     out = [{"name": "static|r0=%s" % r, "kind": "static", "r0": (99 if r == math.inf else r), "tier": tier, "cost": 5} for r in INTERVALS]
@@ -289,6 +424,11 @@ def items(tier):
             for variant in ("threshold", "random"):
                 out.append({"name": "adaptive|%s|%s|n=%d" % (variant, dom, n), "kind": "adaptive", "n": n, "dom": dom,
                             "variant": variant, "tier": tier, "cost": n})
+    for ck in COND_KINDS:
+        for variant in ("threshold", "random"):
+            for n in (3, 6):
+                out.append({"name": "adaptive-in-condition|%s|%s|n=%d" % (ck, variant, n), "kind": "adaptive_cond", "cond": ck,
+                            "variant": variant, "n": n, "tier": tier, "cost": 2})
     return out
 
 
@@ -328,6 +468,8 @@ def run_item(item):
         res["traces"] = res["evals"] = n
         res["outcomes"] = ["tlc-edge|%d" % i for i in range(n)]
         res["samples"] = [{"engine": "B", "tlc_distinct_states": g["distinct"], "edges_replayed": n}]
+    elif item["kind"] == "adaptive_cond":
+        adaptive_in_condition(item, res, on_v)
     elif item["kind"] == "nonstatic":
         S = tp.samplers
         for mk in (lambda: S.RandomUniformSampler(Bd.build_tp(L.SQ), n_points=3), lambda: S.GridSampler(Bd.build_tp(L.C1), n_points=4),
